@@ -129,9 +129,10 @@ pub struct RotBucket {
 
 impl Scope for RotBucket {
     fn handle(&mut self, req: &Req) -> Resp {
-        let resp = if req.is_list() && self.fail_at == Some(self.log.len()) {
-            // alternately a server error and a reply that is not HTTP at all (a transport failure)
-            if self.log.len() % 2 == 0 { Resp::status(500) } else { Resp::broken_transport() }
+        let faulted = req.is_list() && self.fail_at == Some(self.log.len());
+        let resp = if faulted && self.log.len() % 3 != 2 {
+            // a server error, or a reply that is not HTTP at all (a transport failure) ...
+            if self.log.len() % 3 == 0 { Resp::status(500) } else { Resp::broken_transport() }
         } else if req.is_list() {
             let prefix = req.q("prefix").unwrap_or("").to_string();
             let max_keys = req.q("max-keys").and_then(|m| m.parse::<usize>().ok());
@@ -140,7 +141,13 @@ impl Scope for RotBucket {
             let mut all: Vec<Obj> = self.vols.values().flatten().cloned().collect();
             all.sort_by(|a, b| a.key.as_bytes().cmp(b.key.as_bytes()));
             let (sel, truncated, limit) = s3sim::select(&all, &prefix, max_keys);
-            Resp::xml(s3sim::list_xml(&req.bucket, &prefix, &sel, truncated, limit, req.n % 2 == 0))
+            let xml = s3sim::list_xml(&req.bucket, &prefix, &sel, truncated, limit, req.n % 2 == 0);
+            if faulted {
+                // ... or the right listing, cut off ten bytes before its end
+                Resp::cut_short(xml.into_bytes(), 10)
+            } else {
+                Resp::xml(xml)
+            }
         } else {
             Resp::status(404)
         };
